@@ -114,16 +114,16 @@ func init() {
 			Nontrivial: "history",
 			Rule: "seeded histories of 2..8 (quick) / 2..40 (thorough) operations over ONE compiled generated bundle, one set of data maps, $ij maps and message catalogues, all reused for the whole history. Operations: render; render through a reused Renderer value; " +
 				"render into a writer failing at write k; render in which the vfail function/directive panics at its n-th invocation (error, string, runtime.Error or struct value); render with ill-typed data; soyjs.Write (ES5/ES6, with/without catalogue); Generator.WriteFile; " +
-				"parse.Expr+EvalExpr; re-compiling the same soy.Bundle. Swarm configuration per history: 0, 1 or 2 obligatory print directives, catalogue kind. Reference model: the same render as the first operation on a freshly compiled bundle with pristine data (memoised). " +
+				"parse.Expr+EvalExpr; re-compiling the same soy.Bundle. Installed registries: vfail (function and directive), vq, vbang, and vpush, a custom function that appends to its list argument the ordinary Go way. Swarm configuration per history: 0, 1 or 2 obligatory print directives, catalogue kind. Reference model: the same render as the first operation on a freshly compiled bundle with pristine data (memoised). " +
 				"Invariants after every operation: un-faulted renders are byte-identical to the model and agree on error presence; faulted renders wrote a prefix of the model output; the structural digest (reflection over exported and unexported fields, pointer-identity aware) of data maps, $ij, catalogues, " +
-				"the whole template.Registry with every AST node, the soy.Bundle and the process-wide registries is unchanged. The same histories run on the plain build and on the instrumented build (under the step clock). A history is distinct by the hash of (bundle skeleton, operation list).",
+				"the whole template.Registry with every AST node, the soy.Bundle and the process-wide registries is unchanged. The same histories run on the plain build and on the instrumented build (under the step clock). Process clause: selected histories are executed again as the first thing a fresh child process does, and every un-faulted render must agree with it (state kept in package-level variables outlives every bundle of a worker process, the fresh-compile model included). A history is distinct by the hash of (bundle skeleton, operation list).",
 			Assumptions: []string{
 				"error text is not compared (it embeds stack traces); only presence",
 				"JS generation is an operation in the history, its own bytes are C13's subject",
 				"randomInt and keys() are excluded from generated bundles",
 			},
 			Components: map[string][]string{"real": {"all of robfig/soy: unmodified build and instrumented build of the current working tree"}, "stub": {"io.Writer (fault-injecting)", "soymsg.Bundle (built from the compiled messages)", "vfail function / directive (panics on schedule)"}, "replaced": {}},
-			RequireProbes: []string{"renders_compared_with_output", "op_render", "op_render-reused", "op_render-writerfault", "op_render-panic", "op_render-illtyped", "op_js", "op_genfile", "op_recompile", "fault_fired_writer", "fault_fired_panic_error", "fault_fired_panic_runtime-error",
+			RequireProbes: []string{"renders_compared_with_output", "completed_js", "completed_genfile", "completed_recompile", "completed_evalexpr", "histories_compared_with_a_fresh_process", "op_render", "op_render-reused", "op_render-writerfault", "op_render-panic", "op_render-illtyped", "op_js", "op_genfile", "op_recompile", "fault_fired_writer", "fault_fired_panic_error", "fault_fired_panic_runtime-error",
 				"histories_with_obligatory_directives", "failed_renders"},
 		}
 	})
@@ -139,7 +139,7 @@ func init() {
 				"failing prints inside callees, plural on non-integers, data of arbitrary JSON shape with missing params). For every entry: a fault-free reference run under the simulator's step clock records every invocation of the vfail function/directive, every write and every catalogue lookup; " +
 				"then one run per fault point: a panic of each of four kinds (error, string, runtime.Error, struct) at the n-th invocation, a writer error (sticky and transient) at the k-th write, each misbehaving catalogue (unknown placeholder, plural part for a plain message, " +
 				"plural case out of range / negative) from the start and from the m-th lookup on; through Tofu.Render, Renderer.Execute with and without Inject / WithMessages. Plus soyhtml.EvalExpr(parse.Expr(e)) for the case's expressions and chaos expressions, " +
-				"and soy.ParseGlobals of a generated globals file through a reader with short reads, an error (with and without data) and an early EOF at every byte offset. Oracle: the call returns - no panic escapes, the step budget is not exhausted, no deadlock. " +
+				"and soy.ParseGlobals of a generated globals file (lines drawn from a grammar of ordinary and odd names - empty, dotted, doubled-dot, non-ASCII components -, separators and values, plus byte-level edits) through a reader with short reads, an error (with and without data) and an early EOF at every byte offset. Oracle: the call returns - no panic escapes, the step budget is not exhausted, no deadlock. " +
 				"A case is distinct by (bundle skeleton, chaos mutations); fault points are enumerated exhaustively per case (write indices sampled beyond 120 calls).",
 			Assumptions: []string{
 				"the oracle does not require an injected fault to yield an error, only that nothing escapes, hangs or blocks",
@@ -167,16 +167,19 @@ func init() {
 			ID: "C09", Level: "exploration", Main: "race", Variants: []string{"race"}, Block: 3,
 			QuickWall: 4 * time.Minute, ThoroughWall: 20 * time.Minute, BlockWall: 15 * time.Minute,
 			Nontrivial: "interleaving", Recheck: 12,
-			Rule: "each run compiles a seeded generated bundle (set-up in the harness task, as a server does at start-up), then 2-6 client tasks each perform 1-4 operations on the SHARED Tofu, registry, data maps, $ij maps and message bundle: render (same or different templates, with/without catalogue), " +
-				"soyjs.Write (ES5/ES6), compilation of an independent bundle, parse.SoyFile. One task runs at a time; the next task is drawn from the run's seeded strategy (uniform random with quantum 1/3/10/50/500 yields, PCT with 1-3 priority change points, coarse run-to-completion in random order, round-robin q=1); " +
+			Rule: "each run compiles a seeded generated bundle (set-up in the harness task, as a server does at start-up), then 2-6 client tasks each perform 1-4 operations on the SHARED Tofu, registry, data maps, $ij maps and message bundle (a stateless stub or the repository's own pomsg bundle loaded from generated PO text): render (same or different templates, with/without catalogue), " +
+				"Execute on one *Renderer object shared by the tasks, Tofu.Render with shared Go struct values (conversion through data.New), soyjs.Write (ES5/ES6), compilation of an independent bundle and parse.SoyFile (two fifths of them on a damaged file, so that scanner and parser take their error paths; " +
+				"every bundle is first handed the same application-wide globals map). A swarm theme per run may concentrate the operations on one kind. One task runs at a time; the next task is drawn from the run's seeded strategy (uniform random with quantum 1/3/10/50/500 yields, PCT with 1-3 priority change points, coarse run-to-completion in random order, round-robin q=1); a successful Lock/RLock is a scheduling point of its own; the speed of the simulated machine (ns per step, for code that reads the clock or arms timers) is drawn per run; " +
 				"task handoffs are hidden from ThreadSanitizer (runtime.RaceDisable around the baton channel operations, //go:norace simulator), so the serial, replayable execution is still judged concurrent. Swarm: 0-2 obligatory directives, soyhtml.Logger set or not, catalogue kind. " +
 				"Oracles: (1) any race-detector report; (2) every operation's bytes and error presence equal the same operation run alone on a fresh bundle; (3) no panic, deadlock or budget exhaustion. A run is distinct and non-trivial by its interleaving hash (sequence of (task, site) at switch points) combined with the bundle skeleton; every run has at least two client tasks.",
 			Assumptions: []string{
 				"ThreadSanitizer judges the tasks concurrent because the only happens-before edges it sees are the program's own (goroutine creation by the caller, soy's channels, the harness's WaitGroup at the join)",
-				"the harness shares only what a server shares: the compiled bundle, read-only data/$ij maps and a stateless message bundle; per-operation writers and results are private",
+				"the harness shares only what a server shares: the compiled bundle, read-only data/$ij maps, Go struct values, one globals map, a message bundle and (in the render-shared operation) a configured Renderer; per-operation writers and results are private",
+				"a race report is re-executed in up to three fresh processes (whether the detector still holds the earlier access is not a function of the schedule alone); a run in which no report reproduces exits 2",
 				"no fault function with a shared counter is installed (it would add happens-before edges soy does not have)",
 			},
-			Components: map[string][]string{"real": append(realSoy, "ThreadSanitizer (go build -race)"), "stub": {"soymsg.Bundle (stateless)", "io.Writer (bytes.Buffer per operation)"}, "replaced": {"Go scheduler's goroutine choice", "channel blocking (enabledness model)"}},
+			Components: map[string][]string{"real": append(realSoy, "ThreadSanitizer (go build -race)"), "stub": {"soymsg.Bundle (stateless stub in part of the runs; the real pomsg bundle in the others)", "io.Writer (bytes.Buffer per operation)"},
+				"replaced": {"Go scheduler's goroutine choice", "blocking on channels, select, mutexes, WaitGroup, Cond (enabledness models; the real primitives still carry data and happens-before edges)", "sync.Pool (LIFO free list)", "clock, timers, tickers (simulated clock)"}},
 			WorkerEnv: func(e *Env) []string {
 				os.MkdirAll(filepath.Join(e.Scratch, "race"), 0o755)
 				return []string{"GORACE=halt_on_error=0 exitcode=0 log_path=" + filepath.Join(e.Scratch, "race", "r")}
@@ -278,7 +281,7 @@ func init() {
 			Rule: "seeded generated messages built from a vocabulary chosen for the placeholder naming pass: repeated expressions, distinct expressions with one base name ($x, $a.x, $b.x), base names that look like suffixed names ($x_1, $a.x_1, $x_2), expressions without a base name, " +
 				"global references, map literals inside placeholders, html tags (two different <a> tags, a tag named a_1), plurals with placeholders in several cases, meanings and descriptions. For every message: (a) the id, placeholder names and placeholder string under every single-site perturbation " +
 				"(rotations 1..4) of each reached range-over-map site of the naming pass and under 4 seeded all-site perturbations must equal the canonical observation; (b) compiled after 1..6 other bundles in the same process; (c) the plain build in fresh OS processes under native order; " +
-				"(d) the same message surrounded by other messages, in another template/namespace/file, with another description, twice in one template -> same id and names; (e) changing the text, the meaning, adding a placeholder, adding a plural case -> a different id. " +
+				"(d) the same message surrounded by other messages, in another template/namespace/file, with another description, twice in one template, and nested inside each of thirteen constructs (if / else / elseif, switch case / default, foreach body / ifempty, for, let and param content blocks, log, two deep mixes) -> same id and names; (e) changing the text, the meaning, adding a placeholder, adding a plural case -> a different id. " +
 				"A run is distinct by its (site, execution, decision) assignment combined with the message source, non-trivial if at least one decision is non-canonical.",
 			Assumptions: []string{
 				"decides the stability, independence and sensitivity clauses of C10 only: conformance of the id numbers to Google's fingerprint algorithm and of the names to the official naming rules is a pure function with an external reference and is NOT decided here (the repository's unit tests pin it on fixed vectors)",
